@@ -369,4 +369,128 @@ def Ev.lift (port : Nat) : Ev → Ev2
   | .req peer target => .conn (.ip peer port) [⟨['G', 'E', 'T'], target, []⟩]
   | .fault k peer => .fault k (.ip peer port)
 
+/-! ### requests in flight: overlapping scrapes, renderings that take time
+
+`handle_http_request` does not answer in one step: when the request ARRIVES it queues
+`tokio::task::spawn_blocking(move || handle.render())`; the blocking task then walks the registry and loads one
+series after the other (`Inner::get_recent_metrics`: one `load(Acquire)` per counter / gauge) — this is where the
+application's updates and OTHER clients' requests interleave; when every series has been read the text is
+formatted and the response is written.  Each request owns its task and its own accumulator: nothing of a rendering
+is shared between connections (`src_render_per_request`).  The model has one event per such step.  The series are
+numbered `0 … n-1` (the order in which a rendering visits them is the hash map's and differs between renderings, so
+`read` names the series); `metrics k` is the current value of series `k`. -/
+
+/-- a request between its arrival and its response -/
+structure Flight where
+  /-- the harness's name for the request -/
+  id : Nat
+  /-- `is_allowed` of its connection -/
+  ok : Bool
+  /-- `req.uri().path()` -/
+  path : List Char
+  /-- what its rendering has loaded so far: `none` = series not visited yet -/
+  acc : Nat → Option Nat
+
+/-- events at the exporter, one per step of the code -/
+inductive EvC
+  /-- the application adds `d` to series `k` (a completed `fetch_add` on the handle) -/
+  | update (k d : Nat)
+  /-- a well-formed request reaches `handle_http_request` on a connection whose `is_allowed` is `ok` -/
+  | arrive (id : Nat) (ok : Bool) (path : List Char)
+  /-- the rendering of request `id` loads series `k` -/
+  | read (id k : Nat)
+  /-- request `id` is answered (possible once its rendering has visited every series, or at once for a refusal
+      and for `/health`, which do not render) -/
+  | respond (id : Nat)
+
+/-- the exporter with its requests in flight; `n` = number of registered series -/
+structure StC where
+  n : Nat
+  metrics : Nat → Nat
+  flights : List Flight
+
+/-- does answering this request involve a rendering? (`is_allowed` and a path other than `/health`) -/
+def Flight.renders (f : Flight) : Bool := f.ok && !(f.path == healthPath)
+
+/-- the rendering of this request has visited every series -/
+def Flight.complete (n : Nat) (f : Flight) : Bool := (List.range n).all (fun k => (f.acc k).isSome)
+
+/-- the values a complete rendering carries, in series order -/
+def Flight.values (n : Nat) (f : Flight) : List Nat := (List.range n).map (fun k => (f.acc k).getD 0)
+
+/-- the request `id` in flight, if any -/
+def findFlight (id : Nat) : List Flight → Option Flight
+  | [] => none
+  | f :: fs => if f.id = id then some f else findFlight id fs
+
+/-- one `load(Acquire)` of the rendering of this request: series `k`, once per series, only for requests that
+    render -/
+def Flight.load (metrics : Nat → Nat) (n k : Nat) (f : Flight) : Flight :=
+  if f.renders && decide (k < n) && (f.acc k).isNone
+    then { f with acc := fun j => if j = k then some (metrics k) else f.acc j } else f
+
+/-- the blocking task of request `id` loads series `k` -/
+def readFlight (metrics : Nat → Nat) (n id k : Nat) : List Flight → List Flight
+  | [] => []
+  | f :: fs => if f.id = id then f.load metrics n k :: fs else f :: readFlight metrics n id k fs
+
+/-- request `id` leaves the exporter -/
+def dropFlight (id : Nat) : List Flight → List Flight
+  | [] => []
+  | f :: fs => if f.id = id then fs else f :: dropFlight id fs
+
+/-- the answer to a request in flight, once it can be given: `handle_http_request` applied to the text made of the
+    values its OWN rendering loaded -/
+def Flight.answer (render : List Nat → List Char) (n : Nat) (f : Flight) : Option Resp :=
+  if !f.renders || f.complete n then some (handleHttpRequest f.ok (render (f.values n)) f.path) else none
+
+/-- one event; the response if one is written -/
+def stepC (render : List Nat → List Char) (s : StC) : EvC → StC × Option Resp
+  | .update k d => ({ s with metrics := fun j => if j = k then s.metrics j + d else s.metrics j }, none)
+  | .arrive id ok path =>
+    match findFlight id s.flights with
+    | some _ => (s, none)
+    | none => ({ s with flights := ⟨id, ok, path, fun _ => none⟩ :: s.flights }, none)
+  | .read id k => ({ s with flights := readFlight s.metrics s.n id k s.flights }, none)
+  | .respond id =>
+    match findFlight id s.flights with
+    | none => (s, none)
+    | some f =>
+      match f.answer render s.n with
+      | some r => ({ s with flights := dropFlight id s.flights }, some r)
+      | none => (s, none)
+
+/-- the state after a history -/
+def runStateC (render : List Nat → List Char) (s : StC) : List EvC → StC
+  | [] => s
+  | e :: es => runStateC render (stepC render s e).1 es
+
+/-- the responses of a history, in the order they are written -/
+def runC (render : List Nat → List Char) (s : StC) : List EvC → List Resp
+  | [] => []
+  | e :: es =>
+    match (stepC render s e).2 with
+    | some r => r :: runC render (stepC render s e).1 es
+    | none => runC render (stepC render s e).1 es
+
+def EvC.isRespond (id : Nat) : EvC → Bool
+  | .respond i => i == id
+  | _ => false
+
+/-- the same exporter with the "coalescing" shortcut (NOT what the code does; the class of defect the freshness
+    clause excludes): a request that finds another request's COMPLETE rendering takes that text instead of
+    rendering itself. -/
+def stepShared (render : List Nat → List Char) (s : StC) : EvC → StC × Option Resp
+  | .respond id =>
+    match findFlight id s.flights with
+    | none => (s, none)
+    | some f =>
+      match s.flights.find? (fun g => g.id != id && g.renders && g.complete s.n) with
+      | some g =>
+        if f.renders then
+          ({ s with flights := dropFlight id s.flights }, some (handleHttpRequest f.ok (render (g.values s.n)) f.path))
+        else stepC render s (.respond id)
+      | none => stepC render s (.respond id)
+  | e => stepC render s e
+
 end MetricsVerif.Allowlist
